@@ -3,7 +3,6 @@ package drive
 import (
 	"fmt"
 	"sort"
-	"strings"
 	"time"
 
 	"verifharness/internal/render"
@@ -86,9 +85,14 @@ func MaxSat(c Case) (out Case) {
 				panic("harness: unsupported maxsat constructor " + str(k, "k"))
 			}
 		}
+		var prev *maxsat.Problem
 		for _, e := range objs(c, "ev") {
 			r := copyCase(e)
 			pb := maxsat.New(cs...)
+			if boolean(e, "sameProblem") && prev != nil { // Solve once more on the Problem value of the previous event
+				pb = prev
+			}
+			prev = pb
 			model, cost := pb.Solve()
 			r["isNil"] = model == nil
 			r["cost"] = cost
@@ -125,7 +129,7 @@ func MaxSat(c Case) (out Case) {
 		out["text"] = text
 		for _, e := range objs(c, "ev") {
 			r := copyCase(e)
-			s, err := maxsat.ParseWCNF(strings.NewReader(text))
+			s, err := maxsat.ParseWCNF(readerOf(text, num(cfg, "reader")))
 			if err != nil {
 				evs = append(evs, M{"op": "crash", "msg": "ParseWCNF returned an error on a well-formed file: " + err.Error(), "stack": ""})
 				return out
